@@ -399,7 +399,23 @@ def _run_limited(cmd, cwd, timeout_s, mem_gb):
 
 
 def ensure_replay_cache():
+    """Native (--cfg verif_replay) dependency build, once (setup_cmd); reused by replays and native stand-ins."""
     ensure_backtrace_patch()
+    stamp = os.path.join(REPLAY_TARGET, ".verif-warm")
+    if os.path.isfile(stamp):
+        return
+    d = scratch_root()
+    try:
+        dst = os.path.join(d, "repo")
+        prepare_copy(dst, [], (), False)
+        with Lock("replay-target"):
+            env = dict(ENV, RUSTFLAGS="--cfg verif_replay -Awarnings", CARGO_TARGET_DIR=REPLAY_TARGET)
+            b = subprocess.run(["cargo", "build", "--offline", "--example", "verif_replay"], cwd=dst, env=env,
+                               capture_output=True, text=True, timeout=3600)
+            if b.returncode == 0:
+                open(stamp, "w").write(time.ctime())
+    finally:
+        shutil.rmtree(d, ignore_errors=True)
 
 
 def native_replay(harness_files, harness, vals, watchdog_s=20, annotations=(), inject=()):
